@@ -564,6 +564,50 @@ class OMachine(Machine):
             body = w.facts.ast(c['usr'])
             if body is not None and body.get('body') is not None and w.allow(body, c):
                 return self.run_body(body, [self.ev_arg(x) for x in c.get('args', [])], None, c)
+        if k == 'Call':
+            # the handful of <algorithm> / <cstdlib> functions a maintainer is likely to reach for inside the functions these rules interpret
+            a = c.get('args', [])
+            if n in ('min', 'max') and len(a) == 2:
+                x, y = self.ev(a[0]), self.ev(a[1])
+                if isinstance(x, (int, float)) and isinstance(y, (int, float)):
+                    return min(x, y) if n == 'min' else max(x, y)
+            if n in ('abs', 'labs', 'llabs', 'fabs') and len(a) == 1:
+                x = self.ev(a[0])
+                if isinstance(x, (int, float)):
+                    return abs(x)
+            if n == 'swap' and len(a) == 2:
+                t0, t1 = strip_casts(a[0]), strip_casts(a[1])
+                x, y = self.ev(t0), self.ev(t1)
+                if isinstance(x, Vec) and isinstance(y, Vec):
+                    x.items, y.items = y.items, x.items
+                else:
+                    self.assign(t0, y); self.assign(t1, x)
+                return 0
+            if n in ('find', 'fill', 'copy', 'distance', 'reverse', 'count') and len(a) >= 2:
+                v = [self.ev(x) for x in a]
+                if isinstance(v[0], It) and isinstance(v[1], It) and v[0].vec is v[1].vec and 0 <= v[0].i <= v[1].i <= len(v[0].vec.items):
+                    items = v[0].vec.items
+                    if n == 'distance' and len(v) == 2:
+                        return v[1].i - v[0].i
+                    if n == 'reverse' and len(v) == 2:
+                        items[v[0].i:v[1].i] = items[v[0].i:v[1].i][::-1]
+                        return 0
+                    if n in ('find', 'count') and len(v) == 3 and not isinstance(v[2], (It, Vec, MemFn)):
+                        hits = [i for i in range(v[0].i, v[1].i) if (items[i] is v[2] if isinstance(v[2], Obj) or hasattr(v[2], 'identity') else items[i] == v[2])]
+                        if n == 'count':
+                            return len(hits)
+                        return It(v[0].vec, hits[0] if hits else v[1].i)
+                    if n == 'fill' and len(v) == 3:
+                        for i in range(v[0].i, v[1].i):
+                            items[i] = v[2]
+                        return 0
+                    if n == 'copy' and len(v) == 3 and isinstance(v[2], It):
+                        src = items[v[0].i:v[1].i]
+                        d = v[2]
+                        if d.i + len(src) > len(d.vec.items):
+                            raise Fault('copy of %d elements to position %d of a vector of %d' % (len(src), d.i, len(d.vec.items)))
+                        d.vec.items[d.i:d.i + len(src)] = src
+                        return It(d.vec, d.i + len(src))
         if k == 'Ctor' and c.get('usr'):
             body = w.facts.ast(c['usr'])
             if body is not None and body.get('body') is not None and body.get('inits') is not None and w.allow(body, c) and getattr(w, 'construct_objects', False):
